@@ -157,7 +157,7 @@ pub fn run(tier: &str) -> Result<Report, String> {
         let mut fs = g.closed_up_to(m);
         fs.extend(templates(&env.ctxs[0].user, false, pool));
         fs.extend(duplicate_templates(env.ctxs[0].nprops(), if tier == "quick" { 4 } else { 5 }, true, false));
-        if b.n == 2 && (tier != "quick" || b.name == "con2") {
+        if b.n == 2 && b.spec.vars[0] == "a" && (tier != "quick" || b.name == "con2") {
             fs.extend(crate::formulas::pair_family(&crate::formulas::plain_pool(&env.ctxs[0].user), if tier == "quick" { 4 } else { 10 }, false));
         }
         let bad: Vec<Violation> = fs
